@@ -5,6 +5,17 @@ package main
 type earleyItem struct{ prod, dot, origin int }
 
 func earleyAccepts(d *jDump, w []int) bool {
+	_, ok := earleyRun(d, w, false)
+	return ok
+}
+
+// earleyViable returns the index of the first token at which w stops being a
+// prefix of a sentence (len(w) if w itself is a viable prefix) and whether w is
+// a sentence; only productive rules are predicted, so "item set non-empty"
+// means "prefix of a sentence".
+func earleyViable(d *jDump, w []int) (int, bool) { return earleyRun(d, w, true) }
+
+func earleyRun(d *jDump, w []int, productiveOnly bool) (int, bool) {
 	n := len(w)
 	sets := make([]map[earleyItem]bool, n+1)
 	order := make([][]earleyItem, n+1)
@@ -38,8 +49,24 @@ func earleyAccepts(d *jDump, w []int) bool {
 			}
 		}
 	}
+	okProd := make([]bool, len(d.Prods))
+	for i := range okProd {
+		okProd[i] = true
+	}
+	if productiveOnly {
+		sm := newSampler(d)
+		for i := range okProd {
+			okProd[i] = sm.pmin[i] >= 0
+		}
+	}
+	if !okProd[0] {
+		return 0, false
+	}
 	add(0, earleyItem{0, 0, 0})
 	for i := 0; i <= n; i++ {
+		if len(order[i]) == 0 {
+			return i - 1, false
+		}
 		for k := 0; k < len(order[i]); k++ {
 			it := order[i][k]
 			p := d.Prods[it.prod]
@@ -51,7 +78,9 @@ func earleyAccepts(d *jDump, w []int) bool {
 					}
 				} else {
 					for _, q := range d.Rules[t.I].Prods {
-						add(i, earleyItem{q, 0, i})
+						if okProd[q] {
+							add(i, earleyItem{q, 0, i})
+						}
 					}
 					if nullable[t.I] {
 						add(i, earleyItem{it.prod, it.dot + 1, it.origin})
@@ -67,5 +96,5 @@ func earleyAccepts(d *jDump, w []int) bool {
 			}
 		}
 	}
-	return sets[n][earleyItem{0, len(d.Prods[0].Terms), 0}]
+	return n, sets[n][earleyItem{0, len(d.Prods[0].Terms), 0}]
 }
